@@ -11,6 +11,8 @@ import YaegiVerif.Generated.C10
           | hold   (not an event of `RunId.Ev`: a busy loop whose goroutine the harness keeps from returning until the
                     NEXT event is over — the window of finding F10-1: `HSt.stoppedNotLeft`, then the event, then `HSt.leave`)
           | expl   (not an event of `RunId.Ev` either: the evaluation finished just before the watcher ran stop(): `XEv.lateStop`)
+          | expn   (stop() ran although the evaluation executed nothing — it never reached Execute: `XEv.stopOnly`; impossible
+                    with the unchanged source)
    results = values returned by the uses, in order, joined by ","   ("-" if there is no use)
    y= is the history run on the run-id model with the extracted facts (a dead definition returns 0 and keeps its
    state), g= the specification (every definition keeps working). -/
@@ -42,6 +44,7 @@ def showResults (rs : List Nat) : String :=
 def parseXEv : Sexp → Option XEv
   | .list [.atom "cancel", .atom "hold"] => some .hold
   | .list [.atom "cancel", .atom "expl"] => some .lateStop
+  | .list [.atom "cancel", .atom "expn"] => some .stopOnly
   | e => (parseEv e).map .ev
 
 def handle (args : List Sexp) : String :=
